@@ -4,9 +4,9 @@ prop("C15",
      harness="c15_rebin",
      runs={
          "quick": [dict(flavour="asan", cases=700), dict(flavour="rel", cases=12000)],
-         "thorough": [dict(flavour="asan", cases=6000), dict(flavour="rel", cases=200000)],
+         "thorough": [dict(flavour="asan", cases=2500), dict(flavour="rel", cases=40000)],
      },
-     min_nontrivial={"quick": 8000, "thorough": 100000},
+     min_nontrivial={"quick": 8000, "thorough": 400000},
      min_obs={"quick": {"ssrb_configs": 50000, "ssrb_bins_compared": 10000000, "ssrb_conservation_checks": 15000,
                         "ssrb_trimmed_events": 100000, "ssrb_cfg_segments_combined": 10000, "ssrb_cfg_views_combined": 10000,
                         "ssrb_cfg_tof_combined": 3000, "ssrb_cfg_tang_trimmed": 10000, "ssrb_cfg_max_segment_limited": 3000,
@@ -15,8 +15,9 @@ prop("C15",
                         "zoom_comp_xy_overload": 1000, "zoom_comp_xy_overload_min_z_nonzero": 100,
                         "zoom_comp_two_step_3d": 1000, "zoom_comp_two_step_xy_overload": 100,
                         "zoom_global_factor_checks": 1500, "zoom_geometry_checks": 4000},
-              "thorough": {"ssrb_configs": 2000000, "ssrb_conservation_checks": 500000, "zoom_sum_checks": 30000,
-                           "zoom_com_checks": 15000, "zoom_uniform_checks": 2500, "zoom_composition_checks": 150000}},
+              "thorough": {"ssrb_configs": 450000, "ssrb_conservation_checks": 140000, "ssrb_cfg_tof_combined": 80000,
+                           "zoom_sum_checks": 5000, "zoom_com_checks": 3500, "zoom_uniform_checks": 700,
+                           "zoom_composition_checks": 23000, "zoom_comp_xy_overload_min_z_nonzero": 400}},
      rule=("even case numbers = one SSRB case: generated cylindrical non-arc-corrected scanner (8..32/64 detectors, 1..7/24 rings, "
            "optional TOF with odd mashing), input sampling span 1 (70%) or 3/5 with complete segments, optional view mashing / "
            "tangential truncation / reduced segment range; 10..150/400 random detector-pair events with counts 1..5 histogrammed by "
